@@ -2081,7 +2081,7 @@ fn build_av01_box(video: &Mp4VideoTrack, av1_config: &Av1Config) -> Vec<u8> {
 /// Build an av1C configuration box for AV1.
 ///
 /// ISO/IEC 14496-12:2022 and AV1 Codec ISO Media File Format Binding spec.
-fn build_av1c_box(av1_config: &Av1Config) -> Vec<u8> {
+pub(crate) fn build_av1c_box(av1_config: &Av1Config) -> Vec<u8> {
     let mut payload = Vec::new();
 
     // Byte 0: marker (1) + version (7) = 0x81
